@@ -123,6 +123,19 @@ CHECKS = {
         design_ref="DESIGN.md section 3 C09, section 8.4q",
         technique="walker must-visit analysis: leaves derived from ADT facts vs visits in MIR (access paths through Option/Vec/variant contexts, helper and closure inlining), absence-edge path search per presence context, order by reachability",
     ),
+    "C11": dict(
+        category="other",
+        text="Decides only the clause 'within the configured elaboration limits': every *_limit of the analyzer's Config is compared in a "
+             "branch somewhere (directly or through the struct field it was copied into) and is set from the [build] option of the same "
+             "name; InstanceHistory::push refuses a push beyond the depth / total limits before it records the instance, and every match on "
+             "the refusal reports exceed_limit of the matching kind on every path of the arm; eval_factor_path does not reach the recursive "
+             "evaluation on the exceeding edge of the function-depth comparison and remembers the overflow, which create_ir turns into a "
+             "diagnostic (as it does for comptime_for_overflow); check_size reports exceed_limit(EvaluateSize) exactly on the exceeding edge. "
+             "It does not decide panic-freedom of the analyzer, emitter and formatter on every parseable input - the main body of the "
+             "property - which depends on run-time invariants behind thousands of unwraps.",
+        design_ref="DESIGN.md section 3 C11, section 8.4t",
+        technique="value-flow (taint with carrier fields) from each limit to the comparisons it decides; edge-sensitive reachability from the exceeding edge of each comparison (no recording / no recursion, refusal constructed); must-pass-through of the diagnostic in every refusal arm",
+    ),
     "C20": dict(
         category="other",
         text="Decides only the report-coverage clause ('the area it reports is the sum of the library areas of its cells, flip-flops and RAM "
